@@ -65,11 +65,14 @@ func (c *Ctx) isObjList(t types.Type, objT types.Type) bool {
 	return false
 }
 
-func (c *Ctx) NewRefLists() *RefLists {
+func (c *Ctx) NewRefLists() *RefLists { return c.NewRefListsFor(c.referenceSpec()) }
+
+// NewRefListsFor: the same list analysis for another kind of object that must not sit in container storage
+// (live registers).
+func (c *Ctx) NewRefListsFor(base TaintSpec) *RefLists {
 	rl := &RefLists{c: c, objT: c.TypeNamed("object", "Object"), rawParam: map[*ssa.Parameter]bool{}, rawRet: map[*ssa.Function][]bool{},
 		sweeps: map[ssa.Value][]sweep{}, stores: map[*ssa.Parameter]string{}}
 	rl.funcs = c.ModuleSSAFuncs()
-	base := c.referenceSpec()
 	rl.spec = base
 	rl.spec.Source = func(v ssa.Value) bool {
 		if base.Source(v) {
